@@ -269,6 +269,8 @@ def units(tier):
             for form in ("relabel", "scores", "default"):
                 us.append(("unit_order", (m, (1,) * n, form, False, True)))
         us.append(("unit_order", (m, (1, 1), "relabel", True, True)))
+    if tier == "quick":
+        us += [("unit_order", (m, (1,) * 5, "relabel", False)) for m in extract.MODELS] + [("unit_order", (m, (1,) * 6, "default", False)) for m in extract.MODELS]
     return us
 
 
